@@ -552,11 +552,6 @@ class MBXML:
             value <= cls.UINTVAR_MAX
         ), f"write_uintvar cannot write integers bigger than {cls.UINTVAR_MAX}"
         bin_val: str = bin(value)[2:][::-1]
-
-        if bin_val[0:7] == "0000000" and (len(bin_val) / 7) > 1:
-            # remove appended zeroes
-            bin_val = bin_val[7:]
-
         bin_len: int = len(bin_val)
         byte_len: int = math.ceil(bin_len / 7)
 
@@ -568,6 +563,20 @@ class MBXML:
             )
 
         return uintvar[::-1]
+
+    @classmethod
+    def write_fraction(cls, value: int, precision: int) -> bytes:
+        """
+        write decimal part of (u|s)floatvar, value / 128**precision, as {precision} septets; leading zero septets
+        are significant (reader derives the divisor from septets count), trailing zero septets are stripped
+        """
+        while precision > 1 and value % 128 == 0:
+            value //= 128
+            precision -= 1
+        return bytes(
+            ((value >> (7 * i)) & 0x7F) | (0x80 if i else 0x00)
+            for i in range(precision - 1, -1, -1)
+        )
 
     @classmethod
     def read_sintvar(cls, data: bytes, idx: int) -> Tuple[int, int, int]:
@@ -636,7 +645,7 @@ class MBXML:
         int_part = int(value)
         dec_part = int(value % 1 * 128**precision)
         integer = cls.write_uintvar(int_part)
-        decimal = cls.write_uintvar(dec_part)
+        decimal = cls.write_fraction(dec_part, precision)
         return integer + decimal
 
     @classmethod
@@ -657,7 +666,7 @@ class MBXML:
         int_part = int(value)
         dec_part = int(abs(value % (1 if value >= 0 else -1)) * 128**precision)
         integer = cls.write_sintvar(int_part, negative_zero=value < 0)
-        decimal = cls.write_uintvar(dec_part)
+        decimal = cls.write_fraction(dec_part, precision)
         return integer + decimal
 
     @classmethod
